@@ -87,7 +87,7 @@ def check(ctx, tier):
     obs += ctx.attempt(lambda c, cl: merge.check(c, cl)[0], ctx, "D-l", default=[])
     obs += ctx.attempt(lambda c, cl: count.class_iteration_agreement(c, cl)[0], ctx, "D-m", default=[])
     obs += ctx.attempt(scanner.numeric_token_table, ctx, "D-n", default=[])
-    obs += ctx.attempt(lambda c, cl: mergetable.invariants(c, cl, which=('figures', 'direction', 'coverage'))[0], ctx, "D-o", default=[])
+    obs += ctx.attempt(lambda c, cl: mergetable.invariants(c, cl, which=('figures', 'direction', 'coverage', 'cardinality'))[0], ctx, "D-o", default=[])
     obs += ctx.attempt(lambda c, cl: scanner.rdflib_literal_datatype_source(c, cl)[0], ctx, "D-p", default=[])
     exceptions.apply(obs)
     floors = [Floor("accumulator increments (+= 1)", counts.get("inc", 0), 9), Floor("absence initialisations", counts.get("init", 0), 20),
